@@ -11,8 +11,18 @@ import json, os, re, shutil, subprocess, sys, time
 
 def sh(cmd, cwd=None, env=None, timeout=3600):
     e = dict(os.environ); e.update(env or {}); e['CARGO_NET_OFFLINE'] = 'true'
-    p = subprocess.run(cmd, shell=True, cwd=cwd, env=e, capture_output=True, text=True, timeout=timeout)
-    return p.returncode, p.stdout + p.stderr
+    # own process group, so that a timeout also ends the test binaries cargo started
+    p = subprocess.Popen(cmd, shell=True, cwd=cwd, env=e, stdout=subprocess.PIPE, stderr=subprocess.STDOUT, text=True, start_new_session=True)
+    try:
+        out, _ = p.communicate(timeout=timeout)
+        return p.returncode, out
+    except subprocess.TimeoutExpired:
+        try:
+            os.killpg(p.pid, 9)
+        except ProcessLookupError:
+            pass
+        p.wait()
+        return 124, 'timeout'
 
 def main():
     wt, cid = sys.argv[1], sys.argv[2]
